@@ -32,6 +32,11 @@ def s_plan(tier):
           (with_init(PG.basic(2, None), "fail"), 1, PT),
           (with_init(PG.reusable_replace(None, False)), 0, PT),
           (PG.late_initializer_failure(3), 1, PT), (PG.late_initializer_failure(4), 0, PT)]
+    # the initializer by the shape of the callable: falsy callable objects, bound method, partial
+    for shape in ("ok-falsy", "ok-nevertrue", "ok-method", "ok-partial"):
+        pl += [(with_init(PG.basic(2, None), shape), 0, PT),
+               (with_init(PG.idle_then_submit(2, 0.05), shape), 1 if shape == "ok-falsy" else 0, PT),
+               (with_init(PG.reusable_resize(1, 3, 0.05), shape), 0, PT)]
     if tier == "thorough":
         pl += [(with_init(PG.warm_then(1, 0.05, "nowait")), 2, dict(kinds=("T",))),
                (with_init(PG.bursts(2, 0.05)), 1, PT)]
